@@ -261,8 +261,9 @@ def build(ctx, cfg):
                      + [p.maxt >= 0, p.maxl >= 0])
     tm_all = p.t0[:N] + [None]
     pre["seg_corr"] = seg_corr(sh, tm_all, seg, ids)
-    pre["rp"] = rp_consistent(g, sh, tm_all, seg, rp_keys, p.spacing)
-    if with_iou:
+    stale = set(cfg.get("stale_keys", ()))  # enabled features whose stored values are arbitrary (not yet computed)
+    pre["rp"] = rp_consistent(g, sh, tm_all, seg, [k_ for k_ in rp_keys if k_ not in stale], p.spacing)
+    if with_iou and "iou" not in stale:
         pre["iou"] = iou_consistent(g, sh, tm_all, seg)
     ctx.assume(And(list(pre.values())))
 
@@ -301,6 +302,7 @@ def build(ctx, cfg):
     ctx.input("seg", [p.seg0[idx] for idx in np.ndindex(*shape)])
     ctx.input("scale", None if scale is None else [s.e for s in scale])
     ctx.input("features", rp_keys + (["iou"] if with_iou else []))
+    ctx.input("stale_keys", sorted(stale))
     ctx.env.update(N=N, alive=p.alive0, adj=p.adj0, t=p.t0, tid=p.tid0, lid=p.lid0, outdeg0=sh.outdeg,
                    indeg0=sh.indeg, seg0=p.seg0)
     return p
